@@ -772,13 +772,24 @@ fn dict_token(rng: &mut Rng) -> Vec<Node> {
     }
 }
 
+fn type_fragment(rng: &mut Rng) -> Vec<Node> {
+    const TYPES: &[&str] = &[
+        "dyn Tr + Send", "impl Tr + Send", "dyn Tr", "impl Tr", "(dyn Tr + Send)", "&dyn Tr", "&'a (dyn Tr + 'a)",
+        "&'a mut T", "&T", "&&T", "*const T", "*mut u8", "[T; 2]", "[u8]", "[T; N]", "(T, u8)", "()", "(T,)", "!",
+        "_", "fn(u8) -> u8", "for<'a> fn(&'a u8)", "unsafe extern \"C\" fn()", "<T as Tr>::X", "T::X", "Self::X",
+        "Self", "Box<dyn Tr + Send>", "Option<&'a T>", "m!()", "::std::vec::Vec<T>", "dyn for<'a> Fn(&'a u8) -> u8 + Send",
+        "dyn ?Sized + Tr", "impl ?Sized", "(T)", "((u8, T), [T; 2])", "Wrap<{ N + 1 }>", "str", "dyn 'static + Tr",
+    ];
+    to_nodes(TYPES[rng.below(TYPES.len())].parse().unwrap())
+}
+
 fn mutate_nodes(ns: &mut Vec<Node>, donor: &[Node], rng: &mut Rng) {
     let mut paths = Vec::new();
     list_paths(ns, &mut Vec::new(), &mut paths);
     let path = paths[rng.below(paths.len())].clone();
     let list = list_at(ns, &path);
     let segs = segments(list);
-    let op = rng.below(11);
+    let op = rng.below(14);
     match op {
         0 => {
             // delete an element
@@ -899,6 +910,46 @@ fn mutate_nodes(ns: &mut Vec<Node>, donor: &[Node], rng: &mut Rng) {
                     };
                     *n = Node::Leaf(TokenTree::Ident(Ident::new(to, Span::call_site())));
                     break;
+                }
+            }
+        }
+        11 => {
+            // replace an identifier by a multi-token type (types in impl headers and generic arguments are not
+            // comma-separated elements, so the element operators above cannot put e.g. `dyn A + B` there)
+            let leaves: Vec<usize> = list
+                .iter()
+                .enumerate()
+                .filter(|(_, n)| matches!(n, Node::Leaf(TokenTree::Ident(_))))
+                .map(|(i, _)| i)
+                .collect();
+            if !leaves.is_empty() {
+                let i = leaves[rng.below(leaves.len())];
+                let frag = type_fragment(rng);
+                list.splice(i..i + 1, frag);
+            }
+        }
+        12 => {
+            // decorate an identifier as a type: prefix (`dyn`, `impl`, `&`, `&mut`, `*const`, `&'a`) or suffix (`+ Bound`, `<T>`, `::X`)
+            let leaves: Vec<usize> = list
+                .iter()
+                .enumerate()
+                .filter(|(_, n)| matches!(n, Node::Leaf(TokenTree::Ident(_))))
+                .map(|(i, _)| i)
+                .collect();
+            if !leaves.is_empty() {
+                let i = leaves[rng.below(leaves.len())];
+                const PRE: &[&str] = &["dyn", "impl", "&", "&mut", "*const", "&'a", "&'static mut", "dyn for<'a>", "?"];
+                const POST: &[&str] = &["+ Send", "+ 'static", "+ ?Sized", "+ Tr<u8>", "<T>", "::X", "<'a, T, 2>", "!()", "+"];
+                if rng.chance(1, 2) {
+                    let frag = to_nodes(PRE[rng.below(PRE.len())].parse().unwrap());
+                    for (k, n) in frag.into_iter().enumerate() {
+                        list.insert(i + k, n);
+                    }
+                } else {
+                    let frag = to_nodes(POST[rng.below(POST.len())].parse().unwrap());
+                    for (k, n) in frag.into_iter().enumerate() {
+                        list.insert(i + 1 + k, n);
+                    }
                 }
             }
         }
